@@ -12,6 +12,11 @@ CLAIMS = {
         text='Static: every path of the root routines binds what it reads (incl. the 1x1 branch); the coupled Newton step, start point, stopping test, retry damping, convergence select, binary matrix power, Rayleigh-quotient power iteration on the masked matrix, eigh clamp/root/error formulas, error provenance and mask prologue / all-padding epilogue of the sibling routines are derived from the current source as value-graph terms and shown equal to the documented formulas. These are necessary conditions of C01; numerical accuracy itself is not decided.',
         note='Trusted: python ast, the pvstatic evaluator (casts transparent, jax primitives uninterpreted), sympy cancellation. Undecided: accuracy/residual bound/finiteness/symmetry (floating point), LOBPCG-deflated path formulas.',
         design='4/C01'),
+    'C02': dict(
+        technique='gated value graph of _transform_grad / statistics update / block contraction compared, per configuration valuation, with an independent restatement of the documented math by computer-algebra normal form (translation-validation style, static)',
+        text='Static: for every valuation of the configuration atoms of the per-parameter transform (7 graft types x skip x lr coupling x lr schedule x weight decay x wd coupling x momentum kind x nesterov x clipping; covering set in quick, all 1792 in thorough) the returned update and the three rebuilt state slots are shown equal, as formal expressions over uninterpreted jax primitives, to the documented formulas; statistics/preconditioners/avg_grad/metrics pass through; exponent = 2 x preconditioned dims unless overridden at both consumers; statistics weights (beta2, where(beta2==1, beta2, 1-beta2)), Gram update over all-but-one axes, block-major running statistic index; block preconditioning contracts axes in order and rolls skipped axes. Necessary conditions of C02; numeric equality with a float64 reference is not decided.',
+        note='Trusted: the restated formulas (SPEC in rules/C02.py) are the documented math; quantisation wrappers/casts value-transparent; preconditioned_grad uninterpreted at the top level. Undecided: numerical agreement, root correctness (C01).',
+        design='4/C02'),
     'C03': dict(
         technique='gate typestate on the gated value graph: every store into a preconditioner slot is a select(isnan(e)|e>=T, old, candidate); sentinel reflexivity on non-refresh arms; guarded-denominator sign analysis',
         text='Static, over replicated / pmap-quantized / sharded refresh functions and all valuations of (scheduled, interval==1, reuse, metrics): each stored preconditioner array is a pass-through or a select primitive (never arithmetic) between the incoming slot and the candidate, with predicate isnan(e) | e >= inverse_failure_threshold, e reported by the same root computation as the candidate, old value on the true arm; on non-refresh paths e reduces to a sentinel equal to the threshold so the placeholder is rejected; efficient_cond implements predicate?compute():init; denominators of the per-parameter transform are guarded. Necessary conditions of C03; finiteness for given magnitudes is not decided.',
